@@ -77,9 +77,9 @@ func (d DataIdentifier) DataSize() uint8 {
 	case DataTypeBaroPressure:
 		return 4
 	case DataTypeLatLon:
-		return 2
+		return 2 * d.Precision.Size()
 	case DataTypeGNSSPVTData:
-		return 76
+		return 94
 	case DataTypeGNSSSatInfo:
 		return 8 // plus variable number of satellites
 	case DataTypeStatusByte:
